@@ -148,7 +148,9 @@ func rawRead(s *Sys, key string) (string, bool) {
 
 // trackingInvariant: {lease ids in storage} == pending ∪ nonexpiring ∪ irrevocable,
 // and every token->lease index entry names an existing lease.
-func trackingInvariant(s *Sys) string {
+func trackingInvariant(s *Sys) string { return trackingInvariantOpt(s, true) }
+
+func trackingInvariantOpt(s *Sys, checkIndex bool) string {
 	ids, idx := expireKeys(s)
 	p, n, i := s.Core.VerifExpiration().VerifTracked()
 	tracked := map[string]bool{}
@@ -168,6 +170,9 @@ func trackingInvariant(s *Sys) string {
 		if !stored[id] {
 			return fmt.Sprintf("lease %q is tracked in memory but has no record in storage", id)
 		}
+	}
+	if !checkIndex {
+		return ""
 	}
 	for _, k := range idx {
 		v, ok := rawRead(s, k)
